@@ -329,13 +329,19 @@ impl CursorTracker for CursorTrackerImpl<'_> {
                     reverse_col,
                     newlines_after_cursor,
                 } => {
-                    let lines = tok.get_content().rsplit('\n');
-                    let offset_from_end = lines
+                    let mut lines = tok.get_content().rsplit('\n');
+                    let lines_after_cursor_len = lines
+                        .by_ref()
                         .take(newlines_after_cursor.into())
                         // +1 for the separator
                         .map(|line| line.len() + 1)
-                        .sum::<usize>()
-                        + reverse_col as usize;
+                        .sum::<usize>();
+                    // The line the cursor is on may have become shorter (e.g. a re-indented
+                    // multiline string), so don't go over the start of that line, or of the token.
+                    let cursor_line_len = lines.next().map_or(0, |line| line.len());
+                    let offset_from_end = (lines_after_cursor_len
+                        + (reverse_col as usize).min(cursor_line_len))
+                    .min(tok.get_content().len());
 
                     (new_token_offset + tok.get_content().len() - offset_from_end) as u32
                 }
